@@ -1046,7 +1046,7 @@ def _one_pop_const_params(phi, xx, T, nu=1, gamma=0, h=0.5, theta0=1,
         _inject_mutations_1D(phi, this_dt, xx, theta0)
         r = phi/this_dt
         phi = tridiag.tridiag(a, b+1/this_dt, c, r)
-        current_t += this_dt
+        current_t = current_t + this_dt
     return phi
 
 def _two_pops_const_params(phi, xx, T, nu1=1,nu2=1, m12=0, m21=0,
@@ -1128,7 +1128,7 @@ def _two_pops_const_params(phi, xx, T, nu1=1,nu2=1, m12=0, m21=0,
             phi = int_c.implicit_precalc_2Dx(phi, ax, bx, cx, this_dt)
         if not frozen2:
             phi = int_c.implicit_precalc_2Dy(phi, ay, by, cy, this_dt)
-        current_t += this_dt
+        current_t = current_t + this_dt
 
     return phi
 
@@ -1253,7 +1253,7 @@ def _three_pops_const_params(phi, xx, T, nu1=1, nu2=1, nu3=1,
             phi = int_c.implicit_precalc_3Dy(phi, ay, by, cy, this_dt)
         if not frozen3:
             phi = int_c.implicit_precalc_3Dz(phi, az, bz, cz, this_dt)
-        current_t += this_dt
+        current_t = current_t + this_dt
     return phi
 
 def _Vfunc_X(x, nu, beta):
@@ -1365,5 +1365,5 @@ def _one_pop_const_params_X(phi, xx, T, nu=1, gamma=0, h=0.5, beta=1, alpha=1,
         _inject_mutations_1D_X(phi, this_dt, xx, theta0, beta, alpha)
         r = phi/this_dt
         phi = tridiag.tridiag(a, b+1./this_dt, c, r)
-        current_t += this_dt
+        current_t = current_t + this_dt
     return phi
